@@ -38,6 +38,14 @@ CLAIMED["C08"] = dict(cat="proof", sec="DESIGN 4/C08",
     note="A1, A2, A3: nn.Linear acts on the last axis (out_j = sum_k W_jk x_k + b_j), activations are element-wise functions, nn.Sequential composes (assumed contracts). Bounded: schematic input spaces and small concrete layer widths; rows, data, weights symbolic.",
     tech="contract-based deductive verification (schematic in layer widths / number of variables): VCs from the real AST, z3")
 
+COND_NOTE = "Abstract operands under their contracts: sampler (fresh n-row Points per call), model (C08 contract), residual/data functions row-wise by name (A8), error_fn row-wise, reduce_fn arbitrary; torch.mean/torch.sum models (A3); A2, A9. Bounded: the spaces are schematic (x:2, t:1 in both orders, u, one parameter, one data function). Not yet under contract: IntegroPINN, HPM*, HPCM, DeepONet conditions, full-dataset aggregation loops."
+CLAIMED["C04"] = dict(cat="proof", sec="DESIGN 4/C04",
+    text="forward of SingleModuleCondition (generic error/reduce), the constructors of PINN/Mean/DeepRitz conditions (documented error and reduce functions), SquaredError, DataCondition (one batch per call) and PeriodicCondition: every callable invoked exactly once per evaluation, the loss is reduce(error(residual(bind))) and bind[name] is proved, row by row and for either variable order, to be the sampled coordinate / model output at the same row / parameter / data function at the same row; model input built from the tracked coordinate leaves.",
+    note=COND_NOTE, tech="contract-based deductive verification with abstract operands (EUF + reals): VCs from the real AST, z3")
+CLAIMED["C14"] = dict(cat="proof", sec="DESIGN 4/C14",
+    text="Frame conditions of condition constructors (user data-function dictionary unchanged, not aliased), non-interference of two conditions sharing a dictionary (plain and static samplers), repeatability of the unreduced loss with a static sampler, left/right data of a periodic condition evaluated on their own side (plain and static non-periodic sampler).",
+    note=COND_NOTE, tech="contract-based deductive verification: frame conditions by heap snapshots + postconditions over abstract operands, z3")
+
 NA = {
  "C19": "restore fidelity is a property of Lightning's checkpoint / torch.save machinery, the file system and process restarts; no contract on a repo function expresses it (DESIGN 4/C19)",
  "C20": "shift-equivariance / resolution consistency are DFT theorems about torch.fft in complex floating point; a contract on _FourierLayer.forward could only restate them as axioms of an external library (DESIGN 4/C20)",
